@@ -456,6 +456,36 @@ func seqCorpus() []Case {
 	}
 }
 
+// workCorpus: Builders made INSIDE a package directory (Build reads its
+// targets relative to it), over a workspace with a nested package whose name
+// repeats its parent's (pkg/pkg) and rules of equal base names in both: the
+// same target list handed to Build again and again must mean the same rules.
+func workCorpus() []Case {
+	w := &ws{roots: []string{"pkg", "other"}}
+	w.add("pkg", sub("pkg", "pkg/pkg"))
+	w.add("pkg", bundle("pkg", "leaf", nil, nil))
+	w.add("pkg", bundle("pkg", "top", []string{"pkg/leaf"}, nil))
+	w.add("pkg", bundle("pkg", "x", []string{"pkg/pkg/top"}, nil))
+	w.add("pkg/pkg", bundle("pkg/pkg", "inner", nil, nil))
+	w.add("pkg/pkg", bundle("pkg/pkg", "top", []string{"pkg/pkg/inner"}, nil))
+	w.add("pkg/pkg", bundle("pkg/pkg", "leaf", nil, nil))
+	w.add("other", bundle("other", "o", []string{"pkg/top"}, nil))
+	mk := func(work string, first []string, seq ...[]string) Case {
+		c := w.mk("corpus-work", first...)
+		c.Work = work
+		c.Seq = seq
+		return c
+	}
+	l := func(xs ...string) []string { return xs }
+	return []Case{
+		mk("pkg", l("pkg/top"), l("pkg/top"), l("pkg/pkg/top"), l("pkg/top"), l("pkg/top", "other/o"), l("pkg/top")),
+		mk("pkg", l("pkg/leaf"), l("pkg/x"), l("pkg/leaf"), l("pkg/pkg/leaf"), l("pkg/leaf")),
+		mk("pkg/pkg", l("pkg/pkg/top"), l("pkg/top"), l("pkg/pkg/top"), l("pkg/pkg/top")),
+		mk("other", l("other/o"), l("pkg/top"), l("other/o"), l("pkg/nowhere"), l("other/o")),
+		mk("pkg", l("pkg/nowhere"), l("pkg/top"), l("pkg/nowhere"), l("pkg/top")),
+	}
+}
+
 // seqCase: a random workspace (often with a dangling dependency or a cycle)
 // and 2-4 further target lists built on the same Builder.
 func seqCase(r *hx.Rng) Case {
@@ -495,6 +525,17 @@ func seqCase(r *hx.Rng) Case {
 			}
 		}
 		c.Seq = append(c.Seq, ts)
+	}
+	if r.Intn(3) == 0 { // the Builder is made inside one of the package directories
+		var dirs []string
+		for _, f := range c.Files {
+			if f.Dir != "" {
+				dirs = append(dirs, f.Dir)
+			}
+		}
+		if len(dirs) > 0 {
+			c.Work = dirs[r.Intn(len(dirs))]
+		}
 	}
 	return c
 }
@@ -873,6 +914,7 @@ func genCases(seed uint64, thorough bool) []Case {
 		cs = append(cs, malformed(r))
 	}
 	cs = append(cs, seqCorpus()...)
+	cs = append(cs, workCorpus()...)
 	nseq := 120
 	if thorough {
 		nseq = 1500
